@@ -456,10 +456,13 @@ impl Chk {
     fn fail(&mut self, what: &str) {
         self.0.push(format!("C11:{what}"));
     }
-    fn done(self) -> String {
+    fn done(mut self) -> String {
         if self.0.is_empty() {
             "ok".to_string()
         } else {
+            // a checksum on the wire that does not verify (or a Paris field that is not the sequence) is also what C13 excludes
+            let c13: Vec<String> = self.0.iter().filter(|m| m.contains("checksum")).map(|m| m.replacen("C11:", "C13:", 1)).collect();
+            self.0.extend(c13);
             format!("FAIL:{}", self.0.join(";"))
         }
     }
@@ -711,6 +714,55 @@ fn run_case(c: &Case, out: &mut Out) {
     out.case(&c.line(), &format!("{}|{}", render_ops(&ops), res), &orc);
 }
 
+/// several probes on ONE channel (the send socket, and whatever the channel remembers, is shared between them):
+/// every probe must come out exactly as it would from a fresh channel
+fn seq_case(base: &Case, probes: &[(u16, u16, u16, u16, u8, u32)], out: &mut Out) {
+    with(|w| *w = World::default());
+    let cc = base.clone();
+    let ps = probes.to_vec();
+    let marks = std::cell::RefCell::new(Vec::<usize>::new());
+    let sent = std::cell::Cell::new(0usize);
+    let r = std::panic::catch_unwind(std::panic::AssertUnwindSafe(|| {
+        let cfg = channel_config(&cc.src, &cc.dst, cc.privileged, cc.proto, cc.size, cc.pattern, cc.iseq, cc.tos);
+        let mut ch = match Channel::<CSock>::connect(&cfg) {
+            Ok(ch) => ch,
+            Err(e) => return render_error(&e),
+        };
+        marks.borrow_mut().push(with(|w| w.ops.len()));
+        for (seq, id, sp, dp, ttl, flags) in &ps {
+            let c = Case { seq: *seq, id: *id, sp: *sp, dp: *dp, ttl: *ttl, flags: *flags, inject: vec![], ..cc.clone() };
+            let r = ch.send_probe(probe_of(&c));
+            marks.borrow_mut().push(with(|w| w.ops.len()));
+            if let Err(e) = r { return render_error(&e); }
+            sent.set(sent.get() + 1);
+        }
+        "ok".to_string()
+    }));
+    let res = r.unwrap_or_else(|_| "fault:panic".to_string());
+    let ops = with(|w| std::mem::take(&mut w.ops));
+    // the property's clauses, probe by probe (the calls of Channel::connect + the calls of that probe = a fresh channel)
+    let marks = marks.into_inner();
+    let mut fails = vec![];
+    if res == "fault:panic" { fails.push("C11:panic_in_probe_sequence".to_string()); }
+    if let Some(&m0) = marks.first() {
+        for (i, (seq, id, sp, dp, ttl, flags)) in probes.iter().enumerate() {
+            if i + 1 >= marks.len() { break; }
+            let c = Case { seq: *seq, id: *id, sp: *sp, dp: *dp, ttl: *ttl, flags: *flags, inject: vec![], ..base.clone() };
+            let mut seg: Vec<Op> = ops[..m0].to_vec();
+            seg.extend_from_slice(&ops[marks[i]..marks[i + 1]]);
+            let r_i = if i < sent.get() { "ok" } else { res.as_str() };
+            let o = oracle(&c, &seg, r_i);
+            if let Some(f) = o.strip_prefix("FAIL:") { fails.push(format!("{}@probe{}_of_{}", f.replace(';', &format!("@probe{i};")), i, probes.len())); }
+        }
+    }
+    let pl = probes.iter().map(|(a, b, c, d, e, f)| format!("{a}.{b}.{c}.{d}.{e}.{f}")).collect::<Vec<_>>().join(",");
+    out.case(
+        &format!("c11seq {} {} {} {} {} {} {} {} {pl}", u8::from(base.privileged), base.proto, hex(&base.src), hex(&base.dst), base.size, base.pattern, base.iseq, base.tos),
+        &format!("{}|sent={}|{res}", render_ops(&ops), sent.get()),
+        &if fails.is_empty() { "ok".to_string() } else { format!("FAIL:{}", fails.join(";")) },
+    );
+}
+
 /// n TCP probes on one channel without a receive in between
 fn fill_case(src: &[u8], dst: &[u8], n: usize, out: &mut Out) {
     with(|w| *w = World::default());
@@ -828,7 +880,13 @@ pub fn run(args: &Args, out: &mut Out) {
     if let Some(path) = &args.replay {
         for l in crate::replay_inputs(path) {
             let t: Vec<&str> = l.split(' ').collect();
-            if t[0] == "c11fill" && t.len() == 4 {
+            if t[0] == "c11seq" && t.len() == 10 {
+                let base = Case { privileged: t[1] == "1", proto: proto_of(t[2]), src: unhex(t[3]), dst: unhex(t[4]), size: t[5].parse().unwrap(), pattern: t[6].parse().unwrap(),
+                    iseq: t[7].parse().unwrap(), tos: t[8].parse().unwrap(), seq: 0, id: 0, sp: 0, dp: 0, ttl: 1, flags: 0, inject: vec![] };
+                let ps: Vec<(u16, u16, u16, u16, u8, u32)> = t[9].split(',').map(|x| { let f: Vec<&str> = x.split('.').collect();
+                    (f[0].parse().unwrap(), f[1].parse().unwrap(), f[2].parse().unwrap(), f[3].parse().unwrap(), f[4].parse().unwrap(), f[5].parse().unwrap()) }).collect();
+                seq_case(&base, &ps, out);
+            } else if t[0] == "c11fill" && t.len() == 4 {
                 fill_case(&unhex(t[1]), &unhex(t[2]), t[3].parse().unwrap(), out);
             } else if let Some(c) = Case::parse(&t) {
                 run_case(&c, out);
@@ -944,6 +1002,38 @@ pub fn run(args: &Args, out: &mut Out) {
         let mut c = g.case(Cell::Icmp, a, 84);
         c.dst = g.addr(b);
         run_case(&c, out);
+    }
+    // 7b. several probes on one channel: repeated, alternating and ascending ttls; consecutive sequences (a round, a
+    //     single-hop round repeated, a TCP re-issue with the same ttl)
+    let reps = if thorough { 200 } else { 12 };
+    for cell in cells {
+        for v6 in [false, true] {
+            for _ in 0..reps {
+                let sz = *g.rng.pick(&[60u16, 61, 84, 1024]);
+                let base = g.case(cell, v6, sz);
+                if !in_range(&base) { continue; }
+                let n = 2 + g.rng.below(4) as usize;
+                let t0 = base.ttl.clamp(1, 200);
+                let shape = g.rng.below(4);
+                let mut ps = vec![];
+                for i in 0..n {
+                    let ttl = match shape { 0 => t0, 1 => if i % 2 == 0 { t0 } else { t0 + 1 }, 2 => t0 + i as u8, _ => if i < 2 { t0 } else { t0 + 1 } };
+                    let seq = base.seq.saturating_add(i as u16).min(65534);
+                    let mut c = base.clone();
+                    c.seq = seq;
+                    // the fields that carry the sequence follow it
+                    if cell == Cell::UdpDublin { c.id = seq; }
+                    if cell == Cell::UdpClassic || cell == Cell::Tcp || (cell == Cell::UdpUnpriv && base.flags == 0) { if base.sp == base.seq { c.sp = seq; } if base.dp == base.seq { c.dp = seq; } }
+                    c.ttl = ttl;
+                    if !in_range(&c) { break; }
+                    if cell == Cell::UdpDublin && v6 && (c.seq < c.iseq || usize::from(c.seq - c.iseq) + 6 > 976) { break; }
+                    ps.push((c.seq, c.id, c.sp, c.dp, ttl, c.flags));
+                }
+                if ps.len() < 2 { continue; }
+                g.count("probe_sequences_on_one_channel");
+                seq_case(&base, &ps, out);
+            }
+        }
     }
     // 8. the bounded array of pending TCP probes
     for n in [1usize, 255, 256] {
